@@ -159,9 +159,11 @@ def gen_lib(rng, index, tier):
     nops = rng.randint(3, 7)
     w = rng.choice([16, 32, 64])
     werror = rng.random() < 0.7
+    short_prefix = rng.random() < 0.3
     for i in range(nops):
         r = rng.random()
         edit = None
+        n_extra = rng.choice([0, 0, 1, 2, 3])
         if r < 0.3 and i < nops - 1:
             name = rng.choice(sorted(corpus.LIB_EDITS))
             cands = [e for e in corpus.LIB_EDITS[name] if e[0] in texts[name]]
@@ -175,9 +177,17 @@ def gen_lib(rng, index, tier):
             use.append(rng.choice(['const', 'iter_kk']))      # a program constant / the same name as a rep iterator
         if edit and edit['file'] == 'lb.fj' and edit['at_open'] == 1:
             edit['at_open'] = 2           # lb is being opened at open #1: edit it only after it was read
-        cfg = {'program': f'lib:{k}:{k2}:{"+".join(use)}',
-               'files': [['la', 'lib', ['la.fj', texts['la.fj']]], ['lb', 'lib', ['lb.fj', texts['lb.fj']]],
-                         ['f1', 'user', corpus.lib_program(k, k2, use)]],
+        libfiles = [['la', 'lib', ['la.fj', texts['la.fj']]], ['lb', 'lib', ['lb.fj', texts['lb.fj']]]]
+        if short_prefix:
+            # only the first library file is given (a cacheable prefix of length one)
+            use = [u for u in use if u in ('stubs', 'pick', 'const', 'iter_kk')] or ['stubs']
+            libfiles = libfiles[:1]
+        # the program may come in several user files (at least as many as the cacheable prefix is long, sometimes)
+        extra = [[f'x{j}', 'user', f'def user_extra_{j} @ here {{\n  here:\n  ;here\n}}\nUSER_EXTRA_{j} = {j + k}\n']
+                 for j in range(n_extra)]
+        cfg = {'program': f'lib:{k}:{k2}:{"+".join(use)}' + (':short' if short_prefix else '') + f':x{n_extra}',
+               'files': libfiles + extra[:n_extra // 2] + [['f1', 'user', corpus.lib_program(k, k2, use)]] +
+               extra[n_extra // 2:],
                'w': w if rng.random() < 0.7 else rng.choice([16, 32, 64]), 'version': rng.choice([0, 1, 2, 3]), 'flags': 0,
                'preset': 0, 'werror': werror if rng.random() < 0.8 else (not werror), 'debug': rng.random() < 0.7}
         kind = 'assemble'
@@ -252,18 +262,37 @@ def gen(rng, index, tier):
         cfg['debug'] = True
         ops.insert(rng.randrange(len(ops) + 1), {'kind': 'assemble', 'cfg': first, 'depth': None})
     deep_probe = None
-    if rng.random() < 0.06:
+    r_depth = rng.random()
+    if r_depth < 0.06:
         # an earlier call with a RAISED macro-recursion depth, and a probe whose expression nesting exceeds python's
         # default recursion limit (it must fail exactly as in a fresh process)
         ops.insert(rng.randrange(len(ops) + 1), {'kind': 'assemble', 'cfg': make_cfg(rng, pick_ok(rng), corpus.OK),
                                                  'depth': rng.choice([6000, 8000])})
         deep_probe = make_cfg(rng, 'f_deep_expr', corpus.FAIL, w=rng.choice([32, 64]))
+    elif r_depth < 0.13:
+        # an earlier call - succeeding, or failing in the parser / in macro resolution / in the writer - with a
+        # LOWERED (or raised) macro-recursion depth, and a probe with a moderately deep expression that a fresh
+        # process assembles
+        d = rng.choice([3, 20, 50, 50, 3000])
+        if rng.random() < 0.6:
+            first = {'kind': 'fail', 'cfg': make_cfg(rng, rng.choice(['f_recursion', 'f_recursion', 'f_unknown_macro',
+                                                                      'f_args', 'f_syntax', 'f_unresolved']), corpus.FAIL),
+                     'depth': d}
+        else:
+            first = {'kind': 'assemble', 'cfg': make_cfg(rng, pick_ok(rng), corpus.OK), 'depth': d}
+        ops.insert(rng.randrange(len(ops) + 1), first)
+        cfg = make_cfg(rng, rng.choice(['n_expr80', 'n_expr80', 'n_expr300', 'n_expr80_here']), corpus.OK)
     if any(o.get('cfg', {}).get('program') == 'n_big_labels' for o in ops):
         cfg['debug'] = True
     if deep_probe is not None:
         ops.append({'kind': 'fail', 'cfg': deep_probe, 'depth': None, 'probe': True})
         return {'ops': ops, 'seed': rng.getrandbits(32)}
     ops.append({'kind': 'assemble', 'cfg': cfg, 'depth': rng.choice([None, None, 900, 60]), 'probe': True})
+    for o in ops:
+        # the deep-expression programs are judged under the default depth only (under a lowered limit their outcome
+        # depends on how many frames the caller already has, which differs between the history and a fresh process)
+        if o.get('cfg', {}).get('program', '').startswith('n_expr'):
+            o['depth'] = None
     return {'ops': ops, 'seed': rng.getrandbits(32)}
 
 
@@ -396,18 +425,22 @@ def run_history(case):
                 tuples.append((short, p))
         out, dbg = f'/simfs/h{oi}.fjm', (f'/simfs/h{oi}.fjd' if cfg['debug'] else None)
         # cache state before the call (observed, never modified)
-        keys = list(fj_parser._stl_prefix_cache.keys())
+        # (a coverage measure only, read from a private structure: its absence or another key shape must not matter)
         nstl = sum(1 for f in cfg['files'] if f[1] in ('stl', 'lib'))
-        if nstl == 0:
-            rec['cache'] = 'no-stl'
-        elif not keys:
-            rec['cache'] = 'cold'
-        elif any(k[0] == cfg['w'] and k[1] == cfg['werror'] for k in keys):
-            rec['cache'] = 'warm-same-w-mode'
-        elif any(k[0] != cfg['w'] for k in keys):
-            rec['cache'] = 'warm-other-width'
-        else:
-            rec['cache'] = 'warm-other-mode'
+        try:
+            keys = list(fj_parser._stl_prefix_cache.keys())
+            if nstl == 0:
+                rec['cache'] = 'no-stl'
+            elif not keys:
+                rec['cache'] = 'cold'
+            elif any(k[0] == cfg['w'] and k[1] == cfg['werror'] for k in keys):
+                rec['cache'] = 'warm-same-w-mode'
+            elif any(k[0] != cfg['w'] for k in keys):
+                rec['cache'] = 'warm-other-width'
+            else:
+                rec['cache'] = 'warm-other-mode'
+        except Exception:       # noqa
+            rec['cache'] = 'no-stl' if nstl == 0 else 'unobservable'
         FS.reset_log()
         FS.plan = None
         state.update(stat_fail_at=None, open_fail_at=None, stat_calls=0, open_calls=0, fired=False)
